@@ -71,7 +71,7 @@ type specEvent struct {
 }
 
 type specWatchReq struct {
-	Start  uint64 `json:"start"`
+	Start  int64  `json:"start"`
 	Prefix int    `json:"prefix"`
 }
 
@@ -109,12 +109,13 @@ type replayCfg struct {
 	Prefixes  []string // watch prefix id -> relative raw prefix
 	CacheSize int
 	SeqDetail bool
+	SubCap    int // > 0: abstract subscriber buffer capacity, realised with filler batches
 	Timeout   time.Duration
 }
 
 var writerStops = map[string]bool{"deal": true, "kv.commit": true, "kv.get": true, "kv.iter": true, "notify": true}
 
-func parkLabels(seqDetail, watchers bool) func(string) bool {
+func parkLabels(seqDetail, watchers bool) func(string, string, uint64, uint64) bool {
 	m := map[string]bool{
 		"deal": true, "kv.commit": true, "kv.get": true, "kv.iter": true, "notify": true,
 		"seq.poll": true, "retry.step": true, "retry.deal": true,
@@ -127,7 +128,23 @@ func parkLabels(seqDetail, watchers bool) func(string) bool {
 	if seqDetail {
 		m["seq.cacheadd"] = true
 	}
-	return func(l string) bool { return m[l] }
+	filler := map[string]bool{} // forwarding loops currently handling an empty (filler) batch; called under the scheduler lock
+	return func(proc, l string, a, b uint64) bool {
+		if l == "watch.process" {
+			filler[proc] = b == 0
+			if b == 0 {
+				return false // an empty (filler) batch: see watch.go, buffer scaling
+			}
+		}
+		if l == "watch.processed" && filler[proc] {
+			return false
+		}
+		if l == "hub.delete" && strings.HasPrefix(proc, "hub.asyncdel") {
+			// a close handed to another goroutine is a separate, arbitrarily late step
+			return watchers
+		}
+		return m[l]
+	}
 }
 
 // seedKey writes the initial history of one key (spec: InitKey).
@@ -366,6 +383,16 @@ func (rs *runState) finishAll() {
 		if rs.finishWatch() {
 			progressed = true
 		}
+		if !progressed {
+			// asynchronous closers go last
+			for name, label := range env.Sched.ParkedProcs() {
+				if label == "hub.delete" {
+					env.Sched.Release(name)
+					time.Sleep(200 * time.Microsecond)
+					progressed = true
+				}
+			}
+		}
 		// sequencer: run while it makes progress
 		before := env.B.GetCurrentRevision()
 		if st := env.Sched.Peek("seq"); st.Exists && st.Parked {
@@ -602,6 +629,7 @@ func cmdReplay(args []string) int {
 	cache := fs.Int("cache", 0, "watch cache size (0 = default)")
 	seqDetail := fs.Bool("seqdetail", false, "cache insert is a separate sequencer step")
 	base := fs.Uint64("base", 3, "base revision")
+	subcap := fs.Int("subcap", 0, "abstract subscriber buffer capacity (0 = no scaling)")
 	fs.Parse(args)
 	kb.QuietLogs()
 	backend.VerifSetRetryIntervals(0, time.Millisecond)
@@ -617,7 +645,7 @@ func cmdReplay(args []string) int {
 		return 2
 	}
 	defer eng.Close()
-	cfg := replayCfg{Engine: *engine, Base: *base, KeyNames: defaultKeyNames, Prefixes: defaultPrefixes, CacheSize: *cache, SeqDetail: *seqDetail, Timeout: 3 * time.Second}
+	cfg := replayCfg{Engine: *engine, Base: *base, KeyNames: defaultKeyNames, Prefixes: defaultPrefixes, CacheSize: *cache, SeqDetail: *seqDetail, SubCap: *subcap, Timeout: 3 * time.Second}
 	rep := &replayReport{ActionCount: map[string]int{}, Engine: *engine}
 	start := time.Now()
 	w, err := os.Create(*out)
